@@ -4,6 +4,7 @@ import (
 	"encoding/base64"
 	"encoding/json"
 	"fmt"
+	"runtime/debug"
 	"sort"
 
 	gonnx "github.com/advancedclimatesystems/gonnx"
@@ -423,6 +424,42 @@ func checkC13(c *hx.Checker) {
 		}
 		c.Case(hx.CaseInfo{ID: j.id, Tags: j.tags, NonTrivial: j.nt, Sample: map[string]any{"case": j.id, "expect": j.mc.Expect}}, func() *hx.Violation { return j.mc.run() })
 	})
+	// a nil input map is an empty input set: accepted when nothing is required, refused otherwise - never a panic
+	for name, spec := range map[string]struct {
+		model []byte
+		ok    bool
+	}{
+		"all-inputs-defaulted": {reluModel(map[string][]int64{"w": {2, 3}}, map[string]*ref.T{"w": wInit}), true},
+		"no-inputs-declared":   {reluModel(map[string][]int64{}, nil), true},
+		"one-required-input":   {reluModel(map[string][]int64{"a": {2, 3}}, nil), false},
+		"required-and-default": {mi, false},
+	} {
+		name, spec := name, spec
+		c.Case(hx.CaseInfo{ID: "nil-input-map/" + name, Tags: []string{"nil-input-map"}, NonTrivial: true}, func() (v *hx.Violation) {
+			mk := func(kind, d string) *hx.Violation {
+				return &hx.Violation{Kind: kind, Detail: d, Replay: map[string]any{"replay_kind": "nil-input-map", "model_b64": base64.StdEncoding.EncodeToString(spec.model), "ok": spec.ok}}
+			}
+			defer func() {
+				if p := recover(); p != nil {
+					v = mk("panic", fmt.Sprintf("Run(nil) panicked: %v :: %s", p, firstLines(string(debug.Stack()), 12)))
+				}
+			}()
+			m, err := gonnx.NewModelFromBytes(spec.model)
+			if err != nil {
+				return mk("refused", "model does not load: "+err.Error())
+			}
+			for _, in := range []gonnx.Tensors{nil, {}} {
+				outs, rerr := m.Run(in)
+				if spec.ok && rerr != nil {
+					return mk("refused", fmt.Sprintf("Run(%v) of a model that requires nothing failed: %v", in == nil, rerr))
+				}
+				if !spec.ok && rerr == nil {
+					return mk("not-refused", fmt.Sprintf("Run(nil=%v) of a model with a required input returned %d outputs", in == nil, len(outs)))
+				}
+			}
+			return hx.OK("match")
+		})
+	}
 	// an initializer-backed graph input is still a declared input: every accessor reports it, consistently
 	c.Case(hx.CaseInfo{ID: "introspection/initializer-backed-input", Tags: []string{"introspection", "initializer-input"}, NonTrivial: true}, func() *hx.Violation {
 		mk := func(kind, d string) *hx.Violation {
